@@ -6,6 +6,7 @@ import (
 	"encoding/hex"
 	"encoding/json"
 	"fmt"
+	"os"
 	"sort"
 	"strconv"
 	"strings"
@@ -493,6 +494,13 @@ func (r *Runner) emit(ev *Event, res *abci.ExecTxResult, info map[string]interfa
 		}
 	}
 	rec.Rh = resultHash(res)
+	if os.Getenv("VERIF_DUMP_RES") != "" && res != nil {
+		if rec.Info == nil {
+			rec.Info = map[string]interface{}{}
+		}
+		bz, _ := json.Marshal(res)
+		rec.Info["res"] = string(bz)
+	}
 	rec.Diff = r.diff
 	if rec.Diff == nil {
 		rec.Diff = []string{}
